@@ -134,4 +134,4 @@ def keystore_text(ks: dict) -> tuple[str, bytes, str]:
         sep = ks.get("sep", " = ")
         out.append(f'{k}{sep}"{v}"')
     key = hashlib.pbkdf2_hmac("sha256", d1 + PBKDF2_SALT, d2, 100000)
-    return nl.join(out) + nl, key, str(uuid.UUID(bytes=kid))
+    return nl.join(out) + ("" if ks.get("no_final_newline") else nl), key, str(uuid.UUID(bytes=kid))
